@@ -85,28 +85,40 @@ def options(lsb0=False, bytealigned=False, mxfp_overflow="saturate", no_color=No
         o.lsb0, o.bytealigned, o.mxfp_overflow, o.no_color = saved
 
 
-def clear_caches():
-    """Clear every functools cache found on the package's modules and on the classes they define (found by scanning, no
+_CACHED_FUNCS = None
+
+
+def _scan_caches():
+    """Every object with a cache_clear() found on the package's modules and on the classes they define (by scanning, no
     names assumed: a refactoring that adds, renames or removes a cache must not break the harness)."""
     import sys as _sys
-    seen = set()
+    found, seen = [], set()
 
-    def clear(obj):
-        cc = getattr(obj, "cache_clear", None)
-        if callable(cc) and id(obj) not in seen:
+    def add(obj):
+        if callable(getattr(obj, "cache_clear", None)) and id(obj) not in seen:
             seen.add(id(obj))
-            try:
-                cc()
-            except Exception:                       # noqa: BLE001
-                pass
+            found.append(obj)
     for name, mod in list(_sys.modules.items()):
         if mod is None or not (name == "bitstring" or name.startswith("bitstring.")):
             continue
         for v in list(vars(mod).values()):
-            clear(v)
+            add(v)
             if isinstance(v, type) and getattr(v, "__module__", "").startswith("bitstring"):
                 for w in list(vars(v).values()):
-                    clear(getattr(w, "__func__", w))
+                    add(getattr(w, "__func__", w))
+    return found
+
+
+def clear_caches():
+    """Clear every functools cache of the package (scanned once per process: caches are created at import time)."""
+    global _CACHED_FUNCS
+    if _CACHED_FUNCS is None:
+        _CACHED_FUNCS = _scan_caches()
+    for f in _CACHED_FUNCS:
+        try:
+            f.cache_clear()
+        except Exception:                       # noqa: BLE001
+            pass
 
 
 def mk(cls: str, bits: str):
